@@ -1,19 +1,13 @@
-"""Which harness binaries decide which property (single source of truth for ./check and MANIFEST.json)."""
+"""Which harness binaries decide which property: one JSON file per property under tools/checks/
+(single source of truth for ./check and MANIFEST.json)."""
+import glob, json, os
 
-HOOK_COMMITS = []
-NOT_APPLICABLE = {}
+_D = os.path.join(os.path.dirname(os.path.abspath(__file__)), "checks")
+CHECKS = {}
+for _f in sorted(glob.glob(os.path.join(_D, "C*.json"))):
+    CHECKS[os.path.basename(_f)[:-5]] = json.load(open(_f))
 
-CHECKS = {
-    "C09": {
-        "level": "exploration",
-        "steps": [{"package": "p_many_cpus", "bin": "c09"}],
-        "technique": "property-based testing (proptest): generated topologies x requests, validity + brute-force existence oracle",
-        "design_ref": "DESIGN.md §11",
-        "level_text": "Generated-input search: 240k (quick) / 4M (thorough) generated topology x request cases, each repeated for the implementation's internal randomness, judged by an independent candidate computation, a validity predicate on the returned set and brute-force satisfiability when nothing is returned. Finds counterexamples, does not prove absence.",
-        "level_note": "Fake hardware (many_cpus test-util) stands for arbitrary topologies; rand::rng() choices inside the library are sampled by repetition.",
-        "assumptions": [
-            "fake hardware platform (many_cpus test-util) stands for every topology; the selection code is platform independent",
-            "the implementation's internal rand::rng() choices are sampled by repetition, not enumerated",
-        ],
-    },
-}
+_H = os.path.join(_D, "hooks.json")
+HOOK_COMMITS = json.load(open(_H)) if os.path.exists(_H) else []
+_N = os.path.join(_D, "not_applicable.json")
+NOT_APPLICABLE = json.load(open(_N)) if os.path.exists(_N) else {}
